@@ -60,7 +60,13 @@ func (r *sessRun) doOp(prop string, o SOp, hist []SOp) stepReport {
 		return mockfs.OK
 	}
 	var res SResult
-	p := catch(func() { res = applyOp(context.Background(), r.sess, o) })
+	opctx := context.Background()
+	if o.Dead {
+		c, cancel := context.WithCancel(opctx)
+		cancel()
+		opctx = c
+	}
+	p := catch(func() { res = applyOp(opctx, r.sess, o) })
 	r.fs.Decide = nil
 	r.lastN = r.fs.NCalls() - start
 	r.lastOps = nil
@@ -79,6 +85,14 @@ func (r *sessRun) doOp(prop string, o SOp, hist []SOp) stepReport {
 		}
 		rep.Outcome = o.Kind + ":deadlock-or-panic"
 		return rep
+	}
+	if o.Dead && !res.OK() {
+		// refused because its context was already cancelled: allowed when
+		// it had no effect at all (same table, nothing locked, no file-system misuse)
+		if got, probs := dumpImpl(r.sess); got == r.model.key() && len(probs) == 0 && len(r.fs.Problems) == 0 {
+			rep.Outcome = o.Kind + ":refused-cancelled-ctx"
+			return rep
+		}
 	}
 	exp := r.model.step(o, failedCall)
 	if exp.Skip {
@@ -242,6 +256,15 @@ func c08Alphabet(fids []p9p.Fid, rich bool) []SOp {
 		}
 		for _, k := range []string{"read", "write", "stat", "wstat", "clunk", "remove"} {
 			add(SOp{Kind: k, Fid: f})
+		}
+		// the same operations issued with an already cancelled context
+		if f != 7 {
+			for _, k := range []string{"read", "write", "stat", "clunk"} {
+				add(SOp{Kind: k, Fid: f, Dead: true})
+			}
+			add(SOp{Kind: "open", Fid: f, Mode: p9p.OREAD, Dead: true})
+			add(SOp{Kind: "walk", Fid: f, Fid2: 1, Names: []string{"a"}, Dead: true})
+			add(SOp{Kind: "create", Fid: f, Name: "n", Perm: 0644, Mode: p9p.ORDWR, Dead: true})
 		}
 	}
 	return ops
